@@ -183,7 +183,9 @@ class DTWSettings:
         if self.use_pruning:
             # Upper bound in the internal representation, without a result/inner_val round trip
             # (sqrt(x)**2 can be smaller than x and would prune the optimal path when DTW equals ED)
-            self.adj_max_dist = ed._distance_inner(s1, s2, inner_dist=self.inner_dist, use_ndim=self.use_ndim)
+            # An explicitly given max_dist stays in force if it is the smaller bound
+            self.adj_max_dist = min(self.adj_max_dist,
+                                    ed._distance_inner(s1, s2, inner_dist=self.inner_dist, use_ndim=self.use_ndim))
 
     def kwargs(self):
         return {
